@@ -55,6 +55,17 @@ func infoPaths(info *chain.Info) (map[string]*chain.Info, error) {
 		return nil, fmt.Errorf("InfoFromJSON: %w", err)
 	}
 	out["protojson"] = pj
+	// cross path: the document ToJSON emits (the layout relays serve: schemeID / groupHash / metadata.beaconID) read by
+	// json.Unmarshal into an Info
+	buf.Reset()
+	if err := info.ToJSON(&buf, nil); err != nil {
+		return nil, fmt.Errorf("ToJSON: %w", err)
+	}
+	rj := new(chain.Info)
+	if err := json.Unmarshal(buf.Bytes(), rj); err != nil {
+		return nil, fmt.Errorf("json unmarshal of the ToJSON document: %w (doc %s)", err, buf.Bytes())
+	}
+	out["relayjson"] = rj
 	return out, nil
 }
 
